@@ -656,3 +656,20 @@ Proof. destruct d; [reflexivity|]. cbn. intros [H|[]]. discriminate. Qed.
 
 Lemma encode_after_endpoint d e : In SEncode (handle_trace d e) -> d = true /\ e = true.
 Proof. destruct d, e; cbn; intuition discriminate. Qed.
+
+Lemma build_message_In listed attrs removed a :
+  In a (build_message listed attrs removed) <->
+  In a listed \/ (In a attrs /\ forall r, In r removed -> ~ In a r).
+Proof.
+  unfold build_message. rewrite in_app_iff, split_message_In. split.
+  - intros [H|[H1 H2]]; [now left|]. destruct (in_dec (list_eq_dec N.eq_dec) a listed) as [Hl|Hl]; [now left|].
+    right. split; [assumption|]. intros r Hr. apply H2. now right.
+  - intros [H|[H1 H2]]; [now left|]. destruct (in_dec (list_eq_dec N.eq_dec) a listed) as [Hl|Hl]; [now left|].
+    right. split; [assumption|]. intros r [<-|Hr]; [assumption|now apply H2].
+Qed.
+
+Lemma required_metadata_In md required a : In a (required_metadata md required) <-> In a md /\ In a required.
+Proof. unfold required_metadata. rewrite filter_In, mem_In. tauto. Qed.
+
+Lemma run_history_last h c : last (run_history (h ++ [c])) [] = md_write (fst c) (snd c).
+Proof. unfold run_history. rewrite map_app. cbn [map]. apply last_last. Qed.
